@@ -72,7 +72,16 @@ class Grid(col.MutableSequence):
     @staticmethod
     def _approx_check(v1, v2):
         # Check types match
-        if isinstance(v1, datetime.time):
+        for kind in (bool, datetime.datetime, datetime.time, Quantity,
+                     Coordinate, numbers.Number, list, dict):
+            if isinstance(v1, kind) != isinstance(v2, kind):
+                return False
+            elif isinstance(v1, kind):
+                break
+
+        if isinstance(v1, bool):
+            return v1 == v2
+        elif isinstance(v1, datetime.time):
             return v1.replace(microsecond=0) == v2.replace(microsecond=0)
         elif isinstance(v1, datetime.datetime):
             return v1.tzinfo == v2.tzinfo and \
@@ -85,11 +94,20 @@ class Grid(col.MutableSequence):
             return Grid._approx_check(v1.latitude, v2.latitude) and \
                    Grid._approx_check(v1.longitude, v2.longitude)
         elif isinstance(v1, float) or isinstance(v2, float):
-            return abs(v1 - v2) < 0.000001
+            # (infinities are equal to themselves, but inf - inf is NaN)
+            return (v1 == v2) or (abs(v1 - v2) < 0.000001)
+        elif isinstance(v1, list):
+            return len(v1) == len(v2) and \
+                   all([Grid._approx_check(i1, i2) for (i1, i2) in zip(v1, v2)])
+        elif isinstance(v1, dict):
+            return set(v1.keys()) == set(v2.keys()) and \
+                   all([Grid._approx_check(v1[k], v2[k]) for k in v1.keys()])
         else:
             return v1 == v2
 
     def __eq__(self, other):
+        if not isinstance(other, Grid):
+            return NotImplemented
         if set(self.metadata.keys()) != set(other.metadata.keys()):
             return False
         for key in self.metadata.keys():
@@ -104,6 +122,8 @@ class Grid(col.MutableSequence):
                     len(self.column[col]) != len(other.column[col]):
                 return False
             for key in self.column[col].keys():
+                if key not in other.column[col]:
+                    return False
                 if not Grid._approx_check(self.column[col][key], other.column[col][key]):
                     return False
         # Check row matches
@@ -115,6 +135,12 @@ class Grid(col.MutableSequence):
                 if not Grid._approx_check(ref_row.get(col), parsed_row.get(col)):
                     return False
         return True
+
+    def __ne__(self, other):
+        result = self.__eq__(other)
+        if result is NotImplemented:
+            return result
+        return not result
 
     @property
     def version(self):  # pragma: no cover
